@@ -25,11 +25,13 @@ package starlark
 //@   ensures big == nil ==> fits32(small) && small == val(i)
 //@   ensures big != nil ==> big.val == val(i) && !fits32(val(i)) && small == 0
 //@ func makeSmallInt
+//@   prop C10 C11
 //@   trusted unsafe pointer arithmetic
 //@   pure
 //@   requires fits32(x)
 //@   ensures val(result) == x
 //@ func makeBigInt
+//@   prop C10 C11
 //@   trusted unsafe pointer cast
 //@   pure
 //@   requires x != nil && !fits32(x.val)
@@ -213,8 +215,11 @@ package starlark
 //@   pure
 //@   ensures sametag(x, y) ==> result
 //@   ensures (typeis(x, Int) && typeis(y, Float)) || (typeis(x, Float) && typeis(y, Int)) ==> !result
+// Recursive comparison terminates: every cycle CompareDepth -> CompareSameType -> (sliceCompare |
+// dictsEqual | structsEqual) -> EqualDepth/CompareDepth lowers depth, and CompareDepth refuses depth < 1.
 //@ func CompareDepth
 //@   prop C11 C10 C06
+//@   decreases depth, 3
 //@   modifies nothing
 //@   requires iscmp(op)
 //@   ensures int_float: depth >= 1 && typeis(x, Int) && typeis(y, Float) ==> err == nil && result0 == tw(op, ifcmp(val(as(x, Int)), as(y, Float)))
@@ -304,14 +309,18 @@ package starlark
 //@ func Comparable.CompareSameType
 //@   prop C11
 //@   requires iscmp(op)
+//@   requires depth_checked_by_caller: depth >= 1
+//@   decreases depth, 2
 //@   modifies nothing
 //@ func TotallyOrdered.Cmp
+//@   decreases depth, 2
 //@   modifies nothing
 //@ func Equal
 //@   prop C06
 //@   modifies nothing
 //@ func EqualDepth
-//@   prop C06
+//@   prop C06 C11
+//@   decreases depth, 4
 //@   modifies nothing
 //@ func Compare
 //@   prop C06 C11
@@ -390,16 +399,16 @@ package starlark
 //@   invariant 1 !x.frozen && x.itercount == 0
 //@   ensures [C06] g_open == old(g_open)
 
-// ---- freezing (C04). frz(v): Freeze has been invoked on v (ghost; non-reference values are
+// ---- freezing (C04; C05 rests on it: what a finished module shares with other threads is frozen). frz(v): Freeze has been invoked on v (ghost; non-reference values are
 // immutable and count). Each container's Freeze must invoke Freeze on everything one edge away;
 // deep freezing of everything reachable follows by induction over those edges (DESIGN 5/C04).
 //@ func Value.Freeze
-//@   prop C04
+//@   prop C04 C05
 //@   modifies List.frozen, hashtable.frozen, starlarkstruct.Struct.frozen, $mem:bool, $ghost:frz
 //@   ensures ghost: frz(self) && frzmono()
-//@   ensures flags_only_set: mono(List.frozen) && mono(hashtable.frozen)
+//@   ensures flags_only_set: mono(List.frozen) && mono(hashtable.frozen) && mono(starlarkstruct.Struct.frozen)
 //@ func List.Freeze
-//@   prop C04
+//@   prop C04 C05
 //@   requires l != nil
 //@   modifies List.frozen, hashtable.frozen, starlarkstruct.Struct.frozen, $mem:bool, $ghost:frz
 //@   invariant 1 rangeindex >= -1 && l.frozen && forall(k, 0, rangeindex + 1, frz(l.elems[k])) && frzmono() && mono(List.frozen) && mono(hashtable.frozen)
@@ -407,38 +416,38 @@ package starlark
 //@   ensures l.frozen && frzmono() && mono(List.frozen) && mono(hashtable.frozen)
 //@   ensures elems: !old(l.frozen) ==> forall(k, 0, len(l.elems), frz(l.elems[k]))
 //@ func Tuple.Freeze
-//@   prop C04
+//@   prop C04 C05
 //@   modifies List.frozen, hashtable.frozen, starlarkstruct.Struct.frozen, $mem:bool, $ghost:frz
 //@   invariant 1 rangeindex >= -1 && forall(k, 0, rangeindex + 1, frz(t[k])) && frzmono() && mono(List.frozen) && mono(hashtable.frozen)
 //@   ensures ghost: frz(t)
 //@   ensures elems: forall(k, 0, len(t), frz(t[k])) && frzmono() && mono(List.frozen) && mono(hashtable.frozen)
 //@ func hashtable.freeze
-//@   prop C04
+//@   prop C04 C05
 //@   requires ht != nil
 //@   modifies List.frozen, hashtable.frozen, starlarkstruct.Struct.frozen, $mem:bool, $ghost:frz
 //@   invariant 1 ht.frozen && mono(List.frozen) && mono(hashtable.frozen)
 //@   bodyensures 1 keys_and_values: frz(e.key) && frz(e.value)
 //@   ensures ht.frozen && mono(List.frozen) && mono(hashtable.frozen)
 //@ func Function.Freeze
-//@   prop C04
+//@   prop C04 C05
 //@   requires fn != nil
 //@   modifies List.frozen, hashtable.frozen, starlarkstruct.Struct.frozen, $mem:bool, $ghost:frz
 //@   ensures ghost: frz(fn)
 //@   ensures forall(k, 0, len(fn.defaults), frz(fn.defaults[k])) && forall(k, 0, len(fn.freevars), frz(fn.freevars[k]))
 //@ func Builtin.Freeze
-//@   prop C04
+//@   prop C04 C05
 //@   requires b != nil
 //@   modifies List.frozen, hashtable.frozen, starlarkstruct.Struct.frozen, $mem:bool, $ghost:frz
 //@   ensures ghost: frz(b)
 //@   ensures b.recv != nil ==> frz(b.recv)
 //@ func cell.Freeze
-//@   prop C04
+//@   prop C04 C05
 //@   requires c != nil
 //@   modifies List.frozen, hashtable.frozen, starlarkstruct.Struct.frozen, $mem:bool, $ghost:frz
 //@   ensures ghost: frz(c)
 //@   ensures c.v != nil ==> frz(c.v)
 //@ func StringDict.Freeze
-//@   prop C04
+//@   prop C04 C05
 //@   modifies List.frozen, hashtable.frozen, starlarkstruct.Struct.frozen, $mem:bool, $ghost:frz
 //@   ensures ghost: frz(d)
 // A finished module's globals are frozen whether initialisation succeeded or failed.
@@ -449,7 +458,13 @@ package starlark
 //@ func sliceCompare
 //@   prop C11 C06
 //@   requires iscmp(op)
+//@   requires depth >= 1
+//@   decreases depth, 1
 //@   modifies nothing
+//@ func dictsEqual
+//@   prop C11 C06
+//@   requires depth >= 1
+//@   decreases depth, 1
 
 // ---- range (C10, C13): a rangeValue denotes start, start+step, ... (len elements); every
 // operation must agree with that mathematical sequence or fail.
@@ -528,15 +543,26 @@ package starlark
 //@   modifies *
 //@   invariant 1 rangeindex >= -1 && !f.Prog.Recursion && forall(k, 0, rangeindex + 1, !(typeis(thread.stack[k].callable, *Function) && as(thread.stack[k].callable, *Function).funcode == f))
 //@   assert /fr := thread.frameAt\(0\)/ [C09] recursion_detected: !f.Prog.Recursion ==> forall(k, 0, len(thread.stack) - 1, !(typeis(thread.stack[k].callable, *Function) && as(thread.stack[k].callable, *Function).funcode == f))
-//@   assert /fr := thread.frameAt\(0\)/ [C02] depth_bounded: f.Prog.Recursion ==> len(thread.stack) <= 100000
+//@   assert /fr := thread.frameAt\(0\)/ [C02,C07] depth_bounded: f.Prog.Recursion ==> len(thread.stack) <= 100000
+//@   assert /fr.locals = locals/ [C08] arguments_were_bound: (f.NumParams == 0 ==> len(args) + len(kwargs) == 0) && forall(k, 0, npos(fn, len(args)), locals[k] == args[k])
 //@   snap /thread.Steps\+\+/ s0 = thread.Steps
 //@   snap /thread.Steps\+\+/ nocallback = isnil(thread.OnMaxSteps)
 //@   snap /thread.Steps\+\+/ limit = thread.maxSteps
 //@   assert /fr.pc = pc/ [C07] one_step_per_instruction: nocallback ==> thread.Steps == wrapu64(s0 + 1)
 //@   assert /fr.pc = pc/ [C07] limit_stops_dispatch: nocallback ==> wrapu64(s0 + 1) < limit
 //@   assert /fr.pc = pc/ [C07] cancel_stops_dispatch: !thread.cancelReason.isset
+// the step limit is absolute (a count of steps since the thread was created), whatever ran before
+//@ func Thread.SetMaxExecutionSteps
+//@   prop C07
+//@   requires thread != nil
+//@   modifies thread.maxSteps
+//@   ensures absolute_limit: thread.maxSteps == max
 
 // ---- argument binding (C08)
+// "On failure, don't clobber *ptr": a conversion that fails leaves every target variable as it was
+//@ func unpackArgNoEscape
+//@   prop C08
+//@   ensures failure_leaves_targets_untouched: result != nil && (typeis(ptr, *Value) || typeis(ptr, *string) || typeis(ptr, *bool) || typeis(ptr, *float64) || typeis(ptr, **List) || typeis(ptr, **Dict) || typeis(ptr, *Callable) || typeis(ptr, *Iterable)) ==> memid(Value) == old(memid(Value)) && memid(string) == old(memid(string)) && memid(bool) == old(memid(bool)) && memid(float64) == old(memid(float64)) && memid(*List) == old(memid(*List)) && memid(*Dict) == old(memid(*Dict)) && memid(Callable) == old(memid(Callable)) && memid(Iterable) == old(memid(Iterable))
 //@ func Function.NumParams
 //@   pure
 //@   ensures result == fn.funcode.NumParams
@@ -575,6 +601,7 @@ package starlark
 //@   invariant 5 vaok(locals, fn, args) && n == npos(fn, len(args)) && nparams == np(fn) && n <= i && forall(k, 0, n, locals[k] == args[k]) && forall(k, 0, len(args), args[k] != nil)
 //@   ensures positional_prefix: err == nil ==> forall(k, 0, npos(fn, len(args)), locals[k] == args[k])
 //@   ensures varargs_fresh_copy: err == nil ==> vaok(locals, fn, args)
+//@   ensures nullary_rejects_arguments: fn.funcode.NumParams == 0 && len(args) + len(kwargs) > 0 ==> err != nil
 //@   ensures surplus_rejected_without_varargs: fn.funcode.NumParams > 0 && !fn.funcode.HasVarargs && len(args) > nko(fn) ==> err != nil
 
 // ---- UnpackArgs (C08): intset is a set of parameter indices (bitset below 64, map above);
@@ -805,3 +832,19 @@ package starlark
 //@   invariant 1 old(ipos(refof(iter))) <= ipos(refof(iter)) && gonly(hashtable.gmem, sub(s, 0)) && gonly(hashtable.gpos, sub(s, 0)) && forallint(c, M(sub(s, 0), c) <==> (old(M(sub(s, 0), c)) || occ(refof(iter), old(ipos(refof(iter))), ipos(refof(iter)), c))) && forallint(c, old(M(sub(s, 0), c)) ==> P(sub(s, 0), c) == old(P(sub(s, 0), c)))
 //@   ensures members: result == nil ==> forallint(c, M(sub(s, 0), c) <==> (old(M(sub(s, 0), c)) || occ(refof(iter), old(ipos(refof(iter))), itlen(refof(iter)), c)))
 //@   ensures existing_keep_place: result == nil ==> forallint(c, old(M(sub(s, 0), c)) ==> P(sub(s, 0), c) == old(P(sub(s, 0), c)))
+
+// ---- a slice of a list is a new, unfrozen list with storage of its own (C04: writing to it can
+// never reach a frozen operand)
+//@ func NewList
+//@   prop C04
+//@   nopanic
+//@   modifies nothing
+//@   ensures result != nil && freshobj(result) && !result.frozen && result.itercount == 0 && len(result.elems) == len(elems) && storeof(result.elems) == storeof(elems)
+//@ func List.Slice
+//@   prop C04 C13
+//@   requires l != nil && step != 0
+//@   requires step > 0 ==> 0 <= start && start <= end && end <= len(l.elems)
+//@   requires step < 0 ==> -1 <= end && end <= start && (start < len(l.elems) || start == end)
+//@   invariant 1 (isnil(list) && len(list) == 0 && cap(list) == 0) || freshobj(storeof(list))
+//@   ensures new_unfrozen_list: typeis(result, *List) && as(result, *List) != l && freshobj(as(result, *List)) && !as(result, *List).frozen
+//@   ensures own_storage: len(as(result, *List).elems) > 0 ==> freshobj(storeof(as(result, *List).elems))
